@@ -313,3 +313,7 @@ package pool
 //@ func (*Message) IsPing(isTCP bool) (b bool)
 //@   trusted
 //@   requires r != nil
+//
+//@ func (*Message) MarshalWithEncoder(encoder Encoder) (data []byte, err error)
+//@   trusted
+//@   requires r != nil
